@@ -460,6 +460,8 @@ func c06CopyRoutine(p *Prog, r *Report, b *bufInfo) {
 // ---------------- C07 ----------------
 
 func runC07(p *Prog, r *Report) {
+	// R8: the final attempt's headers reach the client as the handler stored them: utils.CopyHeaders appends every value under the source's own key (shared with C06.R5)
+	r.Borrow(p, runC06, map[string]string{"C06.R5": "C07.R8"}, nil)
 	// R7: the recorder reports the exchange as hijacked (nothing is emitted then) only when the hijack succeeded (shared with C20.R3)
 	r.Borrow(p, c20Wrappers, map[string]string{"C20.R3": "C07.R7"}, func(o Ob) bool { return strings.Contains(o.Construct, "bufferWriter") })
 	b := resolveBuf(p, r, "C07.R0")
@@ -1181,6 +1183,10 @@ func c07FunctionMap(p *Prog, r *Report, funcs map[string]*ssa.Function, pkg stri
 func runC15(p *Prog, r *Report) {
 	// R7: the error handler that answers 413 / the error status is non-nil whatever options were given
 	checkErrHandlerDefaulted(p, r, "C15.R7", map[string]bool{"buffer": true})
+	// R8: the limits and memory thresholds are the configured ones
+	for _, o := range [][2]string{{"MaxRequestBodyBytes", "request size limit"}, {"MemRequestBodyBytes", "request memory threshold"}, {"MaxResponseBodyBytes", "response size limit"}, {"MemResponseBodyBytes", "response memory threshold"}} {
+		checkConfiguredAsGiven(p, r, "C15.R8", "buffer", "Buffer", o[0], o[1])
+	}
 	// R6: nothing reads the request body before the size-limited reader does: the verbose request dump only reads header fields (shared with C06.R6)
 	checkDumpReadOnly(p, r, "C15.R6")
 	// R5: the size-limited reader is applied to the request's own body, whatever the method or declared length (shared with C06.R4)
@@ -1535,6 +1541,50 @@ func c15SizeHandler(p *Prog, r *Report) {
 		}
 	}
 	r.Check(ok413, "C15.R1", "buffer.(*SizeErrHandler).ServeHTTP: MaxSizeReachedError -> 413", p.FuncPos(eh), "413 on the *MaxSizeReachedError edge", "the size error handler does not answer 413 for MaxSizeReachedError")
+	// ... for EVERY size error: no path on which the error was recognised as MaxSizeReachedError reaches a return
+	// without the 413 (a further condition on the error's fields — "only when it carries a positive limit" — sends
+	// the size errors multibuf reports with MaxSize 0 to the generic 500)
+	{
+		var wh413 ssa.Instruction
+		for _, c := range Calls(eh) {
+			if cc, ok := IsInvoke(c, "WriteHeader"); ok && cc.Value == ssa.Value(eh.Params[1]) {
+				if code, _ := constInt(cc.Args[0]); code == 413 {
+					wh413 = c
+				}
+			}
+		}
+		bad := ""
+		if wh413 != nil {
+			for _, ret := range Returns(eh) {
+				for _, path := range EnumPaths(eh, ret, 256) {
+					isSize := false
+					lits := PathLits(p, path, errorAtom)
+					if contradictory(lits) {
+						continue
+					}
+					for _, l := range lits {
+						if strings.Contains(l.Atom, "MaxSizeReachedError") && l.Val {
+							isSize = true
+						}
+					}
+					if !isSize {
+						continue
+					}
+					passes := false
+					for _, blk := range path {
+						if blk == wh413.Block() {
+							passes = true
+						}
+					}
+					if !passes {
+						bad = p.InstrPos(ret)
+					}
+				}
+			}
+		}
+		r.Check(wh413 != nil && bad == "", "C15.R1", "buffer.(*SizeErrHandler).ServeHTTP: every MaxSizeReachedError is answered 413", p.FuncPos(eh), "all paths that recognised the size error pass WriteHeader(413)",
+			"a path on which the error is a MaxSizeReachedError returns without answering 413 (return at "+bad+"): an over-limit chunked request whose size error carries MaxSize 0 (memory threshold >= maximum) gets the generic error status")
+	}
 }
 
 // c15DepFacts re-derives from the dependency's SSA the facts R3 relies on.
@@ -1672,6 +1722,8 @@ func mutantsC07() []Mutant {
 func mutantsC15() []Mutant {
 	f := "buffer/buffer.go"
 	return []Mutant{
+		{Name: "size-error-needs-positive-limit", File: "buffer/buffer.go", Old: "\tif _, ok := err.(*multibuf.MaxSizeReachedError); ok {\n", New: "\tif se, ok := err.(*multibuf.MaxSizeReachedError); ok && se.MaxSize > 0 {\n", Expect: "C15.R1"},
+		{Name: "mem-threshold-raised-to-max", File: "buffer/options.go", Old: "\t\tb.memResponseBodyBytes = m\n", New: "\t\tif b.maxResponseBodyBytes > 0 && m < b.maxResponseBodyBytes {\n\t\t\tm = b.maxResponseBodyBytes\n\t\t}\n\t\tb.memResponseBodyBytes = m\n", Expect: "C15.R8"},
 		{Name: "return-between-buffering-and-defer", File: "buffer/buffer.go", Old: "\tif err != nil || body == nil {\n", New: "\tif req.Context().Err() != nil {\n\t\tb.errHandler.ServeHTTP(w, req, req.Context().Err())\n\t\treturn\n\t}\n\tif err != nil || body == nil {\n", Expect: "C15.R4"},
 		{Name: "buffer-errhandler-not-defaulted", File: "buffer/buffer.go", Old: "\tif strm.errHandler == nil {\n\t\tstrm.errHandler = errHandler\n\t}\n", New: "", Expect: "C15.R7"},
 		{Name: "skip-checklimit", File: f, Old: "\tif err := b.checkLimit(req); err != nil {\n\t\tb.log.Error(\"vulcand/oxy/buffer: request body over limit, err: %v\", err)\n\t\tb.errHandler.ServeHTTP(w, req, err)\n\t\treturn\n\t}\n", New: "", Expect: "C15.R1"},
